@@ -1321,7 +1321,7 @@ class Process(StateMachine, persistence.Savable, metaclass=ProcessStateMachineMe
         """
         assert not self.has_terminated(), 'Cannot step, already terminated'
 
-        if self.paused and self._paused is not None:
+        while self._paused is not None and not self._paused.done():
             await self._paused
 
         try:
